@@ -101,6 +101,8 @@ pub struct Stats {
     pub max_width: f64,
     pub pre_health_sign: i8,
     pub stale_extra: bool,
+    pub hostile_tried: u64,
+    pub hostile_accepted: u64,
 }
 
 fn pos_bits(vm: &Vm, acct: &Pubkey, bank: &Pubkey) -> (i128, i128) {
@@ -350,6 +352,44 @@ pub fn run_case(c: &LiqCase, stats: &mut Stats) -> Result<(), (String, String)> 
         }
         Err(e) => stats.err = Some(e),
     }
+    // hostile presentation: the same liquidation with the liquidatee's extra collateral left out of the observation
+    // accounts (it would make the account look unhealthier), or with all of the liquidatee's observation accounts
+    // missing. Whatever the program accepts is judged like every other success.
+    if c.extra_collateral > 0 {
+        let ix0 = w.ix_liquidate(lq.accts[0], lq.auth, le.accts[0], ab, lb, q.max(1));
+        let xkey = w.banks[xb].key;
+        let glen = w.risk_metas_for_bank(&xkey).len();
+        let mut variants: Vec<solana_program::instruction::Instruction> = vec![];
+        if let Some(pos) = ix0.accounts.iter().rposition(|m| m.pubkey == xkey) {
+            let mut ix = ix0.clone();
+            ix.accounts.drain(pos..(pos + glen).min(ix.accounts.len()));
+            variants.push(ix);
+            // another bank's group presented in the extra collateral's place (a cheap bank standing in for a dear one)
+            for other in [ab, lb] {
+                let mut ix = ix0.clone();
+                let g = w.risk_metas_for_bank(&w.banks[other].key);
+                ix.accounts.splice(pos..(pos + glen).min(ix.accounts.len()), g);
+                variants.push(ix);
+            }
+        }
+        // drop the whole liquidatee segment: everything after the last account of the liquidator's own list
+        let n_le = w.risk_metas(&le.accts[0], None, None).len();
+        if n_le > 0 && ix0.accounts.len() > n_le {
+            let mut ix = ix0.clone();
+            let keep = ix.accounts.len() - n_le;
+            ix.accounts.truncate(keep);
+            variants.push(ix);
+        }
+        for ix in variants {
+            let mut vm = w.vm.clone();
+            stats.hostile_tried += 1;
+            if vm.exec(&ix).is_ok() {
+                stats.hostile_accepted += 1;
+                stats.success = true;
+                check_success(&w, &pre, &pre_acc, &vm, &le.accts[0], &lq.accts[0], ab, lb, q.max(1), stats)?;
+            }
+        }
+    }
     // boundary driver: largest seize amount that still succeeds
     let (_, r1) = attempt(&w, 1);
     if r1.is_ok() && pos_val > 1 {
@@ -404,6 +444,8 @@ pub fn run(ctx: &Ctx) -> Report {
                 if st.steered {
                     rep.label("steered");
                 }
+                rep.add_extra("hostile_observation_lists_tried", st.hostile_tried);
+                rep.add_extra("hostile_observation_lists_accepted", st.hostile_accepted);
                 if st.stale_extra {
                     rep.label("extra-collateral-oracle-stale");
                 }
